@@ -184,3 +184,11 @@ Theorem C05_judge_cligraphout_accepts_exactly_the_specification :
     JudgeComplete3.cligraphout_spec signed co infmt inb rc hasout outb.
 Proof. exact JudgeComplete3.judge_cligraphout_iff. Qed.
 Print Assumptions C05_judge_cligraphout_accepts_exactly_the_specification.
+
+(* ---------- the brute-force oracle graphic_bf decides the certificate-defined class for EVERY size (GraphicOracle.v): sound (an
+   accepted assignment is a forest with the column paths) and complete (every forest representation can be relabelled onto the
+   nodes 0..m, oriented and renumbered so that the enumeration finds it) - the gap "completeness of graphic_bf" is closed ---------- *)
+From Cmr Require GraphicOracle.
+Theorem C05_oracle_is_definition : forall m n M, graphic_bf m n M = true <-> GraphicClosure.GraphicP m n M.
+Proof. exact GraphicOracle.graphic_bf_iff. Qed.
+Print Assumptions C05_oracle_is_definition.
